@@ -280,6 +280,20 @@ func c20Sequential(ctx context.Context, run *common.Run, obs *c20obs, idx int) {
 	repo := bitcoin_reader.NewPeerRepository(st, "")
 	m := pbState{}
 	times := map[string][2]int64{} // addr -> [call sec, return sec] of the last stamp
+	// what the store holds (nil until the first Save): Load on a used repository must replace the
+	// whole in-memory state, index included, by exactly this
+	var savedM pbState
+	var savedTimes map[string][2]int64
+	snapshotSaved := func() {
+		savedM = pbState{}
+		savedTimes = map[string][2]int64{}
+		for a, sc := range m {
+			savedM[a] = sc
+		}
+		for a, tw := range times {
+			savedTimes[a] = tw
+		}
+	}
 	var trace []string
 	w := func() map[string]interface{} {
 		return map[string]interface{}{"kind": "peer-book-sequence", "ops": trace}
@@ -293,7 +307,36 @@ func c20Sequential(ctx context.Context, run *common.Run, obs *c20obs, idx int) {
 	n := 10 + rng.Intn(60)
 	for i := 0; i < n; i++ {
 		a := pool[rng.Intn(len(pool))]
-		switch k := rng.Intn(14); {
+		switch k := rng.Intn(17); {
+		case k == 14:
+			// Save alone; the repository keeps being used
+			if err := repo.Save(ctx); err != nil {
+				run.Violate(common.Violation{Clause: "save-load-round-trip", Signature: "save-fails", Detail: err.Error(), Witness: w()})
+				return
+			}
+			trace = append(trace, "save")
+			snapshotSaved()
+		case k >= 15:
+			// Load on the repository in use (unsaved additions and updates are dropped)
+			var err error
+			pan := safe(func() { err = repo.Load(ctx) })
+			trace = append(trace, "load-in-place")
+			if pan != "" || err != nil {
+				run.Violate(common.Violation{Clause: "save-load-round-trip", Signature: "load-of-saved-file-fails", Detail: fmt.Sprintf("panic=%q err=%v", pan, err), Witness: w()})
+				return
+			}
+			m = pbState{}
+			times = map[string][2]int64{}
+			for a, sc := range savedM {
+				m[a] = sc
+			}
+			for a, tw := range savedTimes {
+				times[a] = tw
+			}
+			if c := repo.Count(); c != len(m) {
+				run.Violate(common.Violation{Clause: "save-load-round-trip", Signature: "load-in-place-count-differs", Detail: fmt.Sprintf("Count()=%d after Load, stored file has %d", c, len(m)), Witness: w()})
+				return
+			}
 		case k < 4:
 			ok, _ := repo.Add(ctx, a)
 			trace = append(trace, fmt.Sprintf("add(%q)=%v", trunc(a), ok))
@@ -365,6 +408,7 @@ func c20Sequential(ctx context.Context, run *common.Run, obs *c20obs, idx int) {
 			var err error
 			pan := safe(func() { err = r2.Load(ctx) })
 			trace = append(trace, "save+load")
+			snapshotSaved()
 			if pan != "" || err != nil {
 				run.Violate(common.Violation{Clause: "save-load-round-trip", Signature: "load-of-saved-file-fails", Detail: fmt.Sprintf("panic=%q err=%v", pan, err), Witness: w()})
 				return
@@ -400,6 +444,7 @@ func c20Sequential(ctx context.Context, run *common.Run, obs *c20obs, idx int) {
 			}
 			m = pbState{}
 			times = map[string][2]int64{}
+			savedM, savedTimes = nil, nil // Clear removes the stored file too
 		}
 	}
 	run.Eval(1)
